@@ -31,7 +31,8 @@ CHECKS = {
     "C19": {
         "text": "Lean 4 invariant proof over all schedules of any number of goroutines running the program that is compiled "
                 "from the token list regenerated from Session.client (the model is a translation of the function): no "
-                "(R)Unlock of an unlocked RWMutex, no deadlock, every returned client is the one stored for the address; "
+                "(R)Unlock of an unlocked RWMutex, no deadlock (for Go's RWMutex: a writer that waits keeps new readers out; a "
+                "program that re-enters the read lock is refuted), every returned client is the one stored for the address; "
                 "the pinned tree's program is refuted by an explicit 2-goroutine schedule; the real Session is stressed in a "
                 "child process and the live connections per endpoint are counted",
         "note": "trusts the Lean kernel, the token extractor (lock/map/return operations in source order), the RWMutex "
